@@ -580,7 +580,13 @@ def fd_hash(n: int, a0: int, b0: int, a1: int, b1: int, a2: int, b2: int, perm: 
         return _fd_hash_body(n, perm, unhash, ks, vs, k, v, mode)
 
 
+MIXED_KEYS = [0, 'one', None, (2, 'b'), 4.5, frozenset([5])]      # keys of types that cannot be ordered against each other
+
+
 def _fd_hash_body(n, perm, unhash, ks, vs, k, v, mode):
+    # key labels become keys of mixed types: equality and hashing of a FrozenDict must not depend on an ordering of the keys
+    ks = [MIXED_KEYS[x % len(MIXED_KEYS)] for x in ks]
+    k = MIXED_KEYS[k % len(MIXED_KEYS)] if mode else k
     d = {}
     for a, b in zip(ks, vs):
         d[a] = b
